@@ -47,6 +47,27 @@ KANI_TRUSTED = [
 ]
 
 
+def py_route(pid, tier):
+    """C17 (reduced scope): the pure wrapper methods of the Python classes (expansion with --features python)"""
+    t0 = time.time()
+    expanded, t_exp = pl.expand("python")
+    contracts = json.load(open(os.path.join(VERIF, "contracts", "contracts.json")))
+    classes = [] if tier == "thorough" else contracts["py_classes_quick"]
+    meta = pl.extract_py(expanded, classes)
+    if meta["classes"] == 0 or not meta["functions"]:
+        raise Undecided("no Python wrapper class found in the expansion (lost anchor)")
+    uf = pl.assemble_py(meta)
+    jobs = [(("Py", k), uf.path, k) for k in ["root"] + uf.ex_modes]
+    res = pl.run_many(jobs)
+    root = pl.merge_results([res[("Py", k)] for k in ["root"] + uf.ex_modes])
+    obs = pl.classify(uf, root, None, None)
+    info = dict(units={"Py": dict(functions_under_contract=len(meta["functions"]), classes=meta["classes"], lemmas=0, canaries_failed_as_required=0,
+                                  verus_verified_root=root.verified, verus_verified_nl=0, wall_s=dict(root=round(root.wall, 1)), skipped=meta["skipped"],
+                                  rewrite_rule_counts=meta["rewrite_rule_counts"], assumption_scan=scan_assumptions(uf.path),
+                                  generated_file=os.path.relpath(uf.path, VERIF), cmds=[root.cmd])}, expand_s=round(t_exp, 1), wall_s=round(time.time() - t0, 1))
+    return obs, info, {"Py": meta}
+
+
 def kani_route(pid, tier):
     """harnesses of /verif/kani on the real crate (path dependency on VERIF_REPO); one obligation per harness"""
     import subprocess
@@ -225,11 +246,13 @@ def main(argv):
         return 0
     t0 = time.time()
     try:
-        if pid not in VERUS_PROPS and pid not in KANI_PROPS:
+        if pid not in VERUS_PROPS and pid not in KANI_PROPS and pid != "C17":
             print("UNDECIDED: no check registered for %s" % pid)
             return 2
         obs, info, metas, kinfo = [], dict(units={}), {}, None
-        if pid in VERUS_PROPS:
+        if pid == "C17":
+            obs, info, metas = py_route(pid, tier)
+        elif pid in VERUS_PROPS:
             obs, info, metas = verus_route(pid, tier)
             lost = required_anchors(pid, metas)
             if lost:
@@ -283,7 +306,7 @@ def main(argv):
         undecided=len(undecided),
         known_findings=len(known_hits),
         checker_cmd="bin/check %s --tier %s  (= cargo +nightly rustc -Zunpretty=expanded; tools/extract; %s)" % (pid, tier, " ; ".join(cmds[:3]) + " ; ..."),
-        trusted_base=(TRUSTED_BASE if pid in VERUS_PROPS else []) + (KANI_TRUSTED if kinfo else []),
+        trusted_base=(TRUSTED_BASE if (pid in VERUS_PROPS or pid == "C17") else []) + (KANI_TRUSTED if kinfo else []),
         samples=samples,
         backends=dict(verus="0.2026.09.13.671956e", smt="Z3 bundled with Verus; --smt-option smt.macro_finder=true for mod nl", kani="0.68.0 / CBMC 6.11 (SAT: default minisat/cadical of the bundle)" if kinfo else None),
         functions_under_contract=sum(u["functions_under_contract"] for u in info["units"].values()),
